@@ -32,4 +32,19 @@ Proof.
   - apply wf_tmul; try assumption. lia.
 Qed.
 
+(* C01: the tensor inside residual_error, (A @ x) - b, entry by entry (the code then takes norm(p=2) of it and of b) *)
+Theorem residual_dense (A x b : list core) xs zs :
+  A <> [] -> length x = length A -> length b = length A -> length xs = length A -> length zs = length A ->
+  wf A -> wf x -> wf b ->
+  elem (tsub (tmul A x) b) xs zs = msum (cols A) (fun ys => elem A xs ys * elem x ys zs) - elem b xs zs.
+Proof.
+  intros Hne Hx Hb Hxs Hzs WA Wx Wb.
+  assert (Hlen : length (tmul A x) = length A).
+  { unfold tmul. rewrite map_length, combine_length. lia. }
+  rewrite elem_tsub; try (rewrite ?Hlen; assumption).
+  - f_equal. apply elem_tmul; try lia. + apply Wx. + destruct Wx as (_ & B). destruct x; cbn in *; lia.
+  - intros E. apply Hne. destruct A; [reflexivity|]. rewrite E in Hlen. discriminate.
+  - apply wf_tmul; assumption.
+Qed.
+
 End Hod.
